@@ -729,8 +729,8 @@ theorem executeWithRetry_of : ⦃fun w => ⌜OF (OpenL Any) w⌝⦄ executeWithR
     | skip
 
 /-- the `except` ladder of `_execute_without_retry`: it returns an outcome (`inr`) or re-raises -/
-theorem noRetryLadder_of (e : Exn) :
-    ⦃fun w => ⌜OF (OpenL Any) w⌝⦄ noRetryLadder cfg e ⦃outPost cfg⦄ := by
+theorem noRetryLadder_of (b : Bool) (e : Exn) :
+    ⦃fun w => ⌜OF (OpenL Any) w⌝⦄ noRetryLadder cfg b e ⦃outPost cfg⦄ := by
   have h1 := recordCancel_of cfg bc hb Any
   have h3 := fun k => recordFailure_of cfg bc hb Any k
   have h4 := fun rec => noRetryEndHook_of cfg (ClosedL rec Any)
